@@ -42,7 +42,9 @@ func runC06(c *Ctx) {
 	ruleDecodedElementsNotShared(c, "R6.7")
 	ruleReshareConfig(c, "R6.8") // old and new side of a resharing get the parameters of their own epoch
 	ruleBroadcastReachesEverySender(c, "R6.9")
-	ruleSignedCoverage(c, "R6.6") // the terms the final group is built from are the terms every node verified: all of them are signed
+	ruleSaveReplacesContent(c, "R6.10") // the share file of a later DKG replaces the previous one entirely
+	ruleMirrorCoverage(c, "R6.11")      // what a node reads back (share index, commitments, group) is what the DKG produced
+	ruleSignedCoverage(c, "R6.6")       // the terms the final group is built from are the terms every node verified: all of them are signed
 }
 
 // sortedParticipantsCall: v is util.SortedByPublicKey(append(X.Remaining, X.Joining...)).
@@ -360,6 +362,7 @@ func runC13(c *Ctx) {
 	ruleSaveReplacesContent(c, "R13.9") // a key file that is rewritten holds exactly the new document
 	ruleLoadOnlyAfterCompletedDKG(c, "R13.10")
 	ruleCommitErrorReachesCaller(c, "R13.11")
+	ruleGroupSavedBeforeShare(c, "R13.12")
 	ruleErrorsOfPersistenceChecked(c, "R13.7", "internal/dkg", "internal/core", "common/key", "internal/chain/boltdb")
 }
 
@@ -754,4 +757,34 @@ func ruleLoadOnlyAfterCompletedDKG(c *Ctx, rule string) {
 			"every path to BeaconProcess.Load crosses `status.Complete != nil` or the success edge of Migrate")
 	}
 	c.Floor(rule, "BeaconProcess.Load calls on the restart path", n, 1)
+}
+
+// R13.12 / R3.9: the output of a DKG is persisted group first, share second, and the share only once the group is on
+// disk. A process that dies between the two writes then restarts with the NEW group and the old share (it cannot sign,
+// and says so); the other order restarts it with the OLD group, threshold and polynomial and a share of the new sharing.
+func ruleGroupSavedBeforeShare(c *Ctx, rule string) {
+	c.ranRules[rule] = true
+	fn := c.P.Fn("internal/core.(*BeaconProcess).saveDKGOutput")
+	if !c.Anchor(rule, "internal/core.(*BeaconProcess).saveDKGOutput", fn != nil) {
+		return
+	}
+	var sg, ss *ssa.Call
+	for _, ci := range callsIn(fn, func(ci ssa.CallInstruction) bool { return ci.Common().IsInvoke() }) {
+		call, ok := ci.(*ssa.Call)
+		if !ok {
+			continue
+		}
+		switch ci.Common().Method.Name() {
+		case "SaveGroup":
+			sg = call
+		case "SaveShare":
+			ss = call
+		}
+	}
+	if !c.Anchor(rule, "SaveGroup and SaveShare calls in saveDKGOutput", sg != nil && ss != nil) {
+		return
+	}
+	ok := guardedByOK(ss, sg)
+	c.Ok(rule, "saveDKGOutput writes the share only after the group was written", shortPos(c.P, ss), ok,
+		"every path to SaveShare crosses the success edge of SaveGroup")
 }
